@@ -93,4 +93,44 @@ def magWeights (m1 m2 : Rat) (w : Nat → Rat) : Nat → Rat := fun i => w i * m
 /-- … and of the grid `Magnifier.backward` returns (`grid.scaled(1/M)`). -/
 def magWeightsBack (m1 m2 : Rat) (w : Nat → Rat) : Nat → Rat := fun i => w i / magWeightFactor m1 m2
 
+/-! ### Round 6: lazily materialised grid weights (`Grid.weights`, `CartesianGrid.scale`)
+
+The `_weights` slot of a grid is empty until somebody reads `grid.weights`; the read fills it with the automatic weights computed from
+the coordinates or — for unstructured coordinates, which have none (`grid.rotated()`, `polar.as_('cartesian')`) — with `1` per point.
+`CartesianGrid.scale` reads the slot and multiplies it by the Jacobian.  Whether a caller looked at `wf.power` before the call must
+not matter. -/
+
+/-- the `_weights` slot: not materialised yet, a scalar, or one value per point -/
+inductive LazyW where
+  | unset : LazyW
+  | scalar (w : Rat) : LazyW
+  | points (ws : List Rat) : LazyW
+deriving Repr, DecidableEq
+
+/-- `Grid.weights` (the property) as a state change: an empty slot is filled with the automatic weight `auto` of the coordinates,
+`none` (unstructured coordinates) meaning "count every point with 1". -/
+def LazyW.read (auto : Option Rat) : LazyW → LazyW
+  | .unset => .scalar (auto.getD 1)
+  | s => s
+
+/-- the weight a reader sees at point `i` (reading materialises) -/
+def LazyW.seen (auto : Option Rat) (s : LazyW) (i : Nat) : Rat :=
+  match s.read auto with
+  | .scalar w => w
+  | .points ws => ws.getD i 0
+  | .unset => 0
+
+/-- `CartesianGrid.scale`: `self.weights *= |prod scale|` — the property is read (and thereby materialised) first. -/
+def LazyW.scale (auto : Option Rat) (j : Rat) (s : LazyW) : LazyW :=
+  match s.read auto with
+  | .scalar w => .scalar (w * j)
+  | .points ws => .points (ws.map (· * j))
+  | .unset => .unset
+
+/-- the variant "rescale only what has been materialised" (seeded regression C07-10): kept for its counterexample. -/
+def LazyW.scaleOld (j : Rat) : LazyW → LazyW
+  | .unset => .unset
+  | .scalar w => .scalar (w * j)
+  | .points ws => .points (ws.map (· * j))
+
 end HcipyVerif.PhaseOptics
